@@ -8,7 +8,8 @@ VARIABLES l, vm, refs      \* refs: run id -> [vis: <<contract, pc - is>> per ex
 trVars == <<l, vm, refs>>
 NoVm == [regs |-> <<>>, mem |-> <<>>, slen |-> 0, env |-> <<>>, frames |-> <<>>, glimit |-> "0", txlen |-> 0, done |-> FALSE,
          code |-> <<>>, cbal |-> <<>>, inputs |-> {}, nrc |-> 0, opv |-> <<>>, blobs |-> <<>>, outs |-> <<>>,
-         led |-> [mint |-> <<>>, burn |-> <<>>, msg |-> "0"], bal0 |-> <<>>, fee |-> <<>>, outs0 |-> <<>>, cbal0 |-> <<>>, fin |-> <<>>]
+         led |-> [mint |-> <<>>, burn |-> <<>>, msg |-> "0"], bal0 |-> <<>>, fee |-> <<>>, outs0 |-> <<>>, cbal0 |-> <<>>, fin |-> <<>>,
+         kv |-> <<>>, kv0 |-> <<>>, warm |-> {}, stok |-> FALSE]                      \* C33 (VmStorage)
 TrInit == l = 1 /\ vm = NoVm /\ refs = <<>>
 e == Rec[l]
 
@@ -51,6 +52,78 @@ Poked == IF Has(e, "poke") THEN [vm EXCEPT !.regs = Over(vm.regs, e.poke)] ELSE 
 ObservedRegs(v) == Over(v.regs, e.regs)
 ObservedMem(v)  == ApplyWrites(v.mem, e.mem, 1)
 
+(***************************************************************************)
+(* C33: contract storage observations (events of harness vh_vmstorage)     *)
+(***************************************************************************)
+\* a dump of contract storage: sequence of <<contract, key, value>>
+KvOf(s) == [p \in {<<s[i][1], s[i][2]>> : i \in 1..Len(s)} |-> s[CHOOSE i \in 1..Len(s) : <<s[i][1], s[i][2]>> = p][3]]
+\* a storage delta: sequence of <<contract, key, 1, value>> (now present) / <<contract, key, 0, "">> (now absent)
+RECURSIVE ApplyStd(_, _, _)
+ApplyStd(kv, d, i) == IF i > Len(d) THEN kv
+                      ELSE ApplyStd(IF d[i][3] = 1 THEN StPut(kv, d[i][1], d[i][2], d[i][4]) ELSE StDel(kv, d[i][1], {d[i][2]}), d, i + 1)
+IsSt(w) == ValidWord(w) /\ Mnemonic(w) \in StorageNames
+KvAfter(v, eff) == IF eff.x /\ "kv" \in DOMAIN eff.upd THEN eff.upd.kv ELSE v.kv
+\* persistent storage after a completed instruction = the map (whenever the recorder logged the storage delta of the step)
+StdOk(v, eff) == (Has(e, "std") /\ v.stok /\ (eff.x \/ ~IsSt(e.word))) => ApplyStd(v.kv, e.std, 1) = KvAfter(v, eff)
+\* a panicking storage instruction: the reason is one the specification admits; the charge d taken before the panic is anything
+\* between 0 and the full cost; result registers may or may not have been written; only the destination buffer may have changed
+StPanicOk(v, eff, reason, oregs) ==
+    LET d == BN!SatSub(v.regs[CGAS], oregs[CGAS]) IN
+    /\ \A r \in (0..63) \ {CGAS, GGAS} : oregs[r] = v.regs[r] \/ (r \in DOMAIN eff.pmay /\ oregs[r] = eff.pmay[r])
+    /\ \/ /\ reason = "OutOfGas" /\ ~CanPay(v, eff.gas)
+          /\ oregs[CGAS] = "0" /\ oregs[GGAS] = BN!SatSub(v.regs[GGAS], v.regs[CGAS])
+       \/ /\ reason \in eff.pan
+          /\ BN!Le(oregs[CGAS], v.regs[CGAS]) /\ BN!Le(d, eff.gas)
+          /\ oregs[GGAS] = BN!SatSub(v.regs[GGAS], d)
+StPanicMemOk(v) ==
+    LET may == StorageMayWrite(v, Mnemonic(e.word), e.word) IN
+    \A i \in 1..Len(e.mem) : /\ BN!Le(may[1], BN!FromNat(e.mem[i][1]))
+                             /\ BN!Le(BN!FromNat(e.mem[i][1] + BLen(e.mem[i][2])), BN!Add(may[1], may[2]))
+\* outcome of a storage instruction executed through Interpreter::instruction (mode "exec")
+StExec(v, eff, oregs, omem) ==
+    CASE e.out = "proceed" ->
+            /\ eff.pan = {} /\ eff.out = "proceed"
+            /\ CanPay(v, eff.gas)
+            /\ oregs = OkRegs(v, eff)
+            /\ \/ omem = OkMem(v, eff)
+               \/ LET alt == StorageAltWr(v, Mnemonic(e.word), e.word) IN alt # <<>> /\ omem = ApplyWrites(v.mem, alt, 1)
+            /\ e.slen = eff.slen
+            /\ Len(e.rc) = 0
+      [] e.out = "panic" ->
+            /\ StPanicOk(v, eff, e.reason, oregs)
+            /\ StPanicMemOk(v)
+            /\ Len(e.rc) = 0
+      [] OTHER -> FALSE
+\* after a storage instruction that panicked part-way, or that is not modelled, the storage contents are no longer known
+StUnknownIf(b, rec) == IF b THEN [rec EXCEPT !.stok = FALSE] ELSE rec
+
+\* the transaction is over: the host commits the storage changes of a successful script and discards those of a failed one
+TStEnd ==
+    /\ IsEv(l, "StEnd")
+    /\ e.outcome \in {"commit", "revert"}
+    /\ LET p == Rec[l - 1] IN              \* the script's last executed instruction (the preceding event) returned ...
+       (e.outcome = "commit") = (/\ p.ev = "Step" /\ Has(p, "out") /\ p.out \in {"return", "returndata"}
+                                 /\ ~InCall(vm) /\ "6" \notin DOMAIN p.regs)          \* ... at the top level ($fp unchanged, no frame left)
+    /\ LET d == KvOf(e.st) IN
+       /\ (e.outcome = "commit" => (vm.stok /\ d = vm.kv))
+       /\ (e.outcome = "revert" => d = vm.kv0)
+       /\ vm' = [vm EXCEPT !.kv = d, !.kv0 = d, !.warm = {}, !.stok = TRUE]
+\* a full dump of persistent storage in the middle of a transaction
+TStDump ==
+    /\ IsEv(l, "StDump")
+    /\ vm.stok /\ KvOf(e.st) = vm.kv
+    /\ UNCHANGED vm
+\* the harness emptied the interpreter's slot cache (an environment action): every slot is cold again
+TStCold ==
+    /\ IsEv(l, "StCold")
+    /\ vm' = [vm EXCEPT !.warm = {}]
+\* the same instruction sequence run with a cold, a pre-warmed and a constantly emptied slot cache: every result
+\* (outcome, panic reason, registers other than $cgas/$ggas, memory changes, storage changes) is the same
+TTwin ==
+    /\ IsEv(l, "Twin")
+    /\ e.a = e.b
+    /\ UNCHANGED vm
+
 TSeg ==
     /\ IsEv(l, "Seg")
     /\ vm' = NoVm
@@ -66,8 +139,12 @@ TInit ==
               led |-> [mint |-> <<>>, burn |-> <<>>, msg |-> "0"],
               bal0 |-> IF Has(e, "bal0") THEN e.bal0 ELSE <<>>, fee |-> IF Has(e, "fee") THEN e.fee ELSE <<>>,
               outs0 |-> IF Has(e, "outs") THEN e.outs ELSE <<>>,
-              cbal0 |-> IF Has(e, "contracts") THEN [c \in DOMAIN e.contracts |-> e.contracts[c].bal] ELSE <<>>, fin |-> <<>>]
+              cbal0 |-> IF Has(e, "contracts") THEN [c \in DOMAIN e.contracts |-> e.contracts[c].bal] ELSE <<>>, fin |-> <<>>,
+              kv |-> IF Has(e, "kv") THEN KvOf(e.kv) ELSE <<>>, kv0 |-> IF Has(e, "kv") THEN KvOf(e.kv) ELSE <<>>,   \* C33: storage contents
+              warm |-> {}, stok |-> Has(e, "kv")]
     /\ e.regs[HP + 1] = BN!FromNat(e.hp)
+    \* C33: a later transaction starts from the storage the previous one left
+    /\ ((Has(e, "cont") /\ e.cont /\ Has(e, "kv")) => (vm.stok /\ KvOf(e.kv) = vm.kv))
     /\ AccOk([inputs |-> IF Has(e, "inputs") THEN {e.inputs[i] : i \in 1..Len(e.inputs)} ELSE {}])
 \* the harness writes operand bytes into accessible memory (an environment action, like Poke)
 TMemPoke ==
@@ -93,7 +170,11 @@ PanicRegsOk(v, eff, reason, oregs) ==
 \* outcome of an exactly modelled instruction executed through Interpreter::instruction (mode "exec")
 ExactExec(v, eff, oregs, omem) ==
     CASE e.out \in {"proceed", "return", "returndata", "revert"} ->
-            /\ eff.pan = {} /\ eff.out = e.out
+            /\ eff.pan = {}
+            /\ \/ eff.out = e.out
+               \/ \* Interpreter::instruction reports a return inside a call context as such; the run loop then continues in the caller
+                  /\ InCall(v) /\ eff.out = "proceed"
+                  /\ <<Mnemonic(e.word), e.out>> \in {<<"RET", "return">>, <<"RETD", "returndata">>}
             /\ CanPay(v, eff.gas)
             /\ oregs = OkRegs(v, eff)
             /\ omem = OkMem(v, eff)
@@ -114,8 +195,10 @@ TStepExec ==
           /\ ConstRegsKept(oregs)
           /\ C30Step(v)
           /\ \E eff \in Effs(v, e.word) :
-                /\ (eff.x => ExactExec(v, eff, oregs, omem))
-                /\ vm' = IF e.out = "panic" THEN [v EXCEPT !.regs = oregs, !.mem = omem, !.slen = e.slen] ELSE NextVm(v, eff, oregs, omem)
+                /\ (eff.x => IF IsSt(e.word) THEN StExec(v, eff, oregs, omem) ELSE ExactExec(v, eff, oregs, omem))
+                /\ (e.out # "panic" => StdOk(v, eff))
+                /\ vm' = IF e.out = "panic" THEN StUnknownIf(IsSt(e.word), [v EXCEPT !.regs = oregs, !.mem = omem, !.slen = e.slen])
+                         ELSE StUnknownIf(IsSt(e.word) /\ ~eff.x, NextVm(v, eff, oregs, omem))
 
 (***************************************************************************)
 (* mode "run": the real fetch / run loop, single-stepped.                  *)
@@ -172,9 +255,10 @@ TStepRun ==
              THEN \* the instruction completed and execution continues
                   /\ fp = {}
                   /\ (eff.x => StepProceeds(v, eff, oregs, omem))
+                  /\ StdOk(v, eff)
                   /\ \A i \in 1..Len(e.rc) : e.rc[i].kind \notin {"ScriptResult", "Panic"}
                   /\ (v.env.default_gas => BN!Lt(oregs[GGAS], v.regs[GGAS]))      \* C29: every executed instruction costs gas
-                  /\ vm' = NextVm(v, eff, oregs, omem)
+                  /\ vm' = StUnknownIf(fp = {} /\ IsSt(e.word) /\ ~eff.x, NextVm(v, eff, oregs, omem))
              ELSE \* terminal step: the instruction's own outcome followed by the VM's finalisation
                   LET rcs == e.rc
                       n   == Len(rcs)
@@ -191,8 +275,8 @@ TStepRun ==
                                    \/ \* (B) this instruction panicked
                                       /\ fp = {} /\ pr.pc = PcBN(v) /\ pr.instr = e.word /\ n = 2
                                       /\ pr.id = CurContract(v)
-                                      /\ PanicRegsOk(v, eff, pr.reason, oregs)
-                                      /\ TerminalMemOk(v, eff, FALSE)
+                                      /\ IF IsSt(e.word) THEN StPanicOk(v, eff, pr.reason, oregs)
+                                         ELSE PanicRegsOk(v, eff, pr.reason, oregs) /\ TerminalMemOk(v, eff, FALSE)
                                    \/ \* (C) this instruction completed and the fetch of the next one failed
                                       /\ fp = {} /\ eff.pan = {} /\ eff.out = "proceed" /\ CanPay(v, eff.gas)
                                       /\ oregs = OkRegs(v, eff)
@@ -340,7 +424,7 @@ TPredCheck ==
     /\ \A i \in 1..Len(e.acc) : e.acc[i].table \notin ContractTables
     /\ (PredRefused => (e.ok = FALSE /\ e.reason = "ContractInstructionNotAllowed"))
     /\ UNCHANGED vm
-TrNext == \/ ((TPredCheck \/ TInit \/ TMemPoke \/ TPoke \/ TStepExec \/ TClientTx \/ TRunSummary) /\ UNCHANGED refs /\ l' = l + 1)
+TrNext == \/ ((TPredCheck \/ TInit \/ TMemPoke \/ TPoke \/ TStepExec \/ TStEnd \/ TStDump \/ TStCold \/ TTwin \/ TClientTx \/ TRunSummary) /\ UNCHANGED refs /\ l' = l + 1)
           \/ ((TSeg \/ TStepRun \/ TFinal \/ TReplica \/ TReplicaReceipts \/ TBpRun) /\ l' = l + 1)
 TrSpec == TrInit /\ [][TrNext]_trVars
 =============================================================================
